@@ -1166,14 +1166,16 @@ def on_path_analysis(tier, prefix='C08', right='int2.tbl2 AS t2', kinds=('JOIN',
 # ------------------------------------------------------------------ semi-join restriction by join kind
 def semijoin_obligations(rep):
     fn = f'{PJ}:PlanJoinTablesQuery.get_filters_from_join_conditions'
-    allowed = {'JOIN', 'INNER JOIN', 'LEFT JOIN'}          # second table is not preserved: restricting it to matching keys is sound
-    for kind in ('JOIN', 'INNER JOIN', 'LEFT JOIN', 'RIGHT JOIN', 'FULL JOIN'):
+    allowed = {'JOIN', 'INNER JOIN', 'LEFT JOIN', 'LEFT OUTER JOIN'}          # second table is not preserved: restricting it to matching keys is sound
+    for kind in ('JOIN', 'INNER JOIN', 'LEFT JOIN', 'LEFT OUTER JOIN', 'RIGHT JOIN', 'RIGHT OUTER JOIN', 'FULL JOIN', 'FULL OUTER JOIN'):
         sql = f'SELECT * FROM int1.tbl1 AS t1 {kind} int2.tbl2 AS t2 ON t1.id = t2.id'
         oid = f'C08.semijoin.{kind.replace(" ", "_")}'
         clause = 'the `col IN <distinct keys of the other table>` restriction is added only when the fetched table is not on a preserved side'
         try:
             p = plan(sql)
         except Exception as e:
+            if type(e).__name__ == 'ParsingException':
+                continue                      # this spelling is not in the dialect
             rep.undecided(oid, 'pysym', f'{type(e).__name__}: {e}'[:100], function=fn, clause=clause)
             continue
         f2 = [f for f in fetches(p) if f.integration == 'int2']
